@@ -477,6 +477,14 @@ theorem inv_setpc (s : St) (i : Nat) (pc : Pc) (hinv : RInv s) (hi : i < s.n)
     (hwf : PcWf pc) : RInv (setPc s i pc) :=
   inv_frame s i { s.ths i with pc := pc } s.state hinv hi hinv.lt32 rfl rfl hR hW hwf
 
+theorem inv_wakeOne (c : Cfg) (s : St) (j : Nat) (hinv : RInv s) (hj : j < s.n) : RInv (wakeOne c s j) := by
+  unfold wakeOne
+  refine inv_frame s j _ s.state hinv hj hinv.lt32 rfl rfl ?_ ?_ ?_
+  · cases hp : (s.ths j).pc <;> simp [holdsR, wokenPc, hp]
+  · cases hp : (s.ths j).pc <;> simp [holdsW, wokenPc, hp]
+  · have := hinv.pcwf j
+    cases hp : (s.ths j).pc <;> simp_all [PcWf, wokenPc]
+
 theorem inv_wakeAll (c : Cfg) (s : St) (l : List Nat) (hinv : RInv s) (hl : ∀ j ∈ l, j < s.n) :
     RInv (wakeAll c s l) ∧ (wakeAll c s l).n = s.n := by
   induction l generalizing s with
@@ -484,18 +492,8 @@ theorem inv_wakeAll (c : Cfg) (s : St) (l : List Nat) (hinv : RInv s) (hl : ∀ 
   | cons j rest ih =>
     simp only [wakeAll]
     have hj : j < s.n := hl j (by simp)
-    have h1 : RInv (setTh s j { s.ths j with pc := (match (s.ths j).pc with
-        | .rParked _ => Pc.rSpin c.spinMax
-        | .wParked _ => Pc.wSpin c.spinMax true
-        | p => p) }) := by
-      refine inv_frame s j _ s.state hinv hj hinv.lt32 rfl rfl ?_ ?_ ?_
-      · cases hp : (s.ths j).pc <;> simp [holdsR, hp]
-      · cases hp : (s.ths j).pc <;> simp [holdsW, hp]
-      · have := hinv.pcwf j
-        cases hp : (s.ths j).pc <;> simp_all [PcWf]
-    have := ih _ h1 (by intro k hk; simpa using hl k (by simp [hk]))
+    have := ih (wakeOne c s j) (inv_wakeOne c s j hinv hj) (by intro k hk; simpa [wakeOne] using hl k (by simp [hk]))
     exact ⟨this.1, this.2.trans rfl⟩
-
 
 /-! ### pc-level views of the guard predicates, and facts about the computed continuations -/
 
